@@ -7,6 +7,24 @@ VERIF = os.path.dirname(os.path.dirname(os.path.abspath(__file__)))
 
 # property -> (technique, level text, level note, design ref)
 CHECKS = {
+    "C04": (
+        "affine abstract interpretation (frame analysis) of scan_node's hit loop with symbolic spans; truth-table equivalence of the decoded/context test; effect summaries of Node.shift / shift_nodes / Node.original",
+        "For any registry: at every attach site the kept hit's span is (s - A(NODE), e - A(NODE)) with A(NODE) the sum of the starts of the open contexts; pops subtract exactly the popped context's start; only length-preserving hits become contexts. This is the whole re-basing mechanism the statement is about; the decoders' own (start,end) are C03/C13-C16.",
+        "Trusted: Python statement semantics, Fourier-Motzkin arithmetic in mdstatic.lin. Assumes hits lie inside the scanned value (the empty-stack pop is charged to C01/C03).",
+        "DESIGN.md 2.6, 3/C04",
+    ),
+    "C05": (
+        "affine frame analysis: sort key as linear forms, shadow test and pop test normalised to one coordinate frame with strictness, DEND typed as an absolute end",
+        "Decides the order key (start asc, end desc, nothing else), that the shadow test compares the hit's ABS end with the ABS end of the last decoded hit using <=, that a context is popped iff the hit ends strictly beyond it, and that DEND is updated only in the decoded arm, to the ABS end. Laminarity of siblings follows per attach site from these facts.",
+        "Trusted: sorted() is stable and ascending; linear arithmetic. Not decided: value-level equality of trees.",
+        "DESIGN.md 2.6, 3/C05",
+    ),
+    "C06": (
+        "affine frame analysis V1-V10 + children-arm dominance; guard truth tables for the self-match and decoded tests",
+        "Each clause of the interval-nesting reference procedure is matched by a verification condition decided on the source for any registry; necessary conditions checked soundly one by one, not a mechanised proof that their conjunction implies tree equality with the reference procedure.",
+        "Trusted: Python statement semantics; premise that decoders return non-empty in-bounds hits.",
+        "DESIGN.md 2.6, 3/C06",
+    ),
     "C07": (
         "reaching-condition dominance (truth table over the depth guard) + linear form of recursive depth arguments + def-use census of the depth parameter",
         "Static analysis of scan/scan_node: every decoder call, recursive call and tree mutation is dominated by DEPTH >= 1; every recursive call passes DEPTH - c, c >= 1; the depth parameter flows nowhere else. These three facts are the whole truncation mechanism; the prefix relation between the trees for k and k+1 is a paper consequence of them plus C08, not mechanically proved.",
